@@ -54,8 +54,11 @@ def main():
                 sys.stdout.flush()
         finally:
             shutil.rmtree(tmp, ignore_errors=True)
-    missed = [r for r in results if r[2] != 1]
-    print("caught %d / %d" % (len(results) - len(missed), len(results)))
+    expect = dict((m["id"], 0 if m.get("expect") == "pass" else 1) for m in muts)
+    wrong = [r for r in results if r[2] != expect[r[0]]]
+    print("as expected %d / %d (semantics-preserving mutants must stay green)" % (len(results) - len(wrong), len(results)))
+    for r in wrong:
+        print("UNEXPECTED: %s %s rc=%d" % (r[0], r[1], r[2]))
     return 0
 
 
